@@ -26,6 +26,7 @@ import (
 	"regexp"
 	"sort"
 	"strings"
+	"sync/atomic"
 	"time"
 
 	"lunar/engine/actions"
@@ -114,7 +115,44 @@ func nActs() int {
 	return n
 }
 
+var gcDone atomic.Int64 // completed background passes of the concurrency quotas' collectors (point cq.gc.done)
+
+func waitFor(eng *c01eng.Engine, what string, cond func() bool) {
+	deadline := time.Now().Add(10 * time.Second)
+	for !cond() {
+		if time.Now().After(deadline) {
+			vh.Die("timeout waiting for %s (gc passes done=%d, timers=%d)", what, gcDone.Load(), len(eng.Clk.PendingTimers()))
+		}
+		time.Sleep(50 * time.Microsecond)
+	}
+}
+
+// advance moves the mock clock one tick at a time and waits until the collector passes that the tick made due have completed and
+// re-armed their timers, so that no later event races with a background pass (as harness/cmd/c02 does).
+func advance(eng *c01eng.Engine, from, d int64, ngc int) {
+	for i := int64(1); i <= d; i++ {
+		target := at(from + i)
+		if ngc == 0 {
+			eng.Clk.Set(target)
+			continue
+		}
+		due := 0
+		for _, p := range eng.Clk.PendingTimers() {
+			if !p.After(target) {
+				due++
+			}
+		}
+		want := gcDone.Load() + int64(due)
+		eng.Clk.Set(target)
+		waitFor(eng, "gc passes", func() bool { return gcDone.Load() >= want && len(eng.Clk.PendingTimers()) >= ngc })
+	}
+}
+
 func sink(point string, kv ...any) {
+	if point == "cq.gc.done" {
+		gcDone.Add(1)
+		return
+	}
 	if point != "proc.exec" {
 		return
 	}
@@ -559,6 +597,14 @@ func main() {
 		} else {
 			eng = probe
 		}
+		ngc := 0 // concurrency quotas = collector goroutines
+		if kinds, ok := sc.Config["QKind"].(map[string]any); ok {
+			for _, k := range kinds {
+				if k == "conc" {
+					ngc++
+				}
+			}
+		}
 		for _, h := range sc.Histories {
 			var now int64
 			for _, e := range h {
@@ -569,14 +615,18 @@ func main() {
 					if err != nil {
 						vh.Die("engine: %v", err)
 					}
+					waitFor(eng, "gc timers armed", func() bool { return len(eng.Clk.PendingTimers()) >= ngc })
 					joinCaches(eng, sc.Config)
 					shared = lunar_context.NewMemoryState[[]byte]()
 					lastReq = map[string]Event{}
 					tr.Add(vh.Ev{"ev": "reset", "now": now})
 				case "adv":
-					now += e.D
-					eng.Clk.Set(at(now))
-					tr.Add(vh.Ev{"ev": "adv", "d": e.D})
+					// one trace event per tick: the engine really sees every tick (with its collector passes)
+					for i := int64(0); i < e.D; i++ {
+						advance(eng, now, 1, ngc)
+						now++
+						tr.Add(vh.Ev{"ev": "adv", "d": 1})
+					}
 				case "req":
 					lastReq[sq(e)] = e
 					tr.Add(doRequest(eng, e))
